@@ -253,16 +253,51 @@ Contract(cfg, ops, obs) ==
 \* hashed, on the real SHA-256: the helper's digest equals the downstream writer's own digest of what it accepted
 C47_Digest(h1, h2) == h1 = h2
 
-\* schedules (recorded event orders; see StreamRace.tla for the model).
-\* calls into the downstream writer never overlap: ds-enter and ds-exit alternate
+(* ---- schedules (event orders; models: StreamRace.tla, StreamPreemptRace.tla) ---- *)
+\* An event order is a sequence of records [e, who, err, ...]; the position in the sequence is the
+\* event's ticket (the driver draws tickets from one counter under one mutex, so recorded order = ticket
+\* order).  e: "w-call" / "w-ret" (a Write call `who` starts / has returned, err its error kind),
+\* "ds-enter" / "ds-exit" (the underlying writer is entered / left on behalf of call `who`),
+\* "shut-call" / "shut-ret", "cancel-call" / "cancel-ret".  Verdicts use tickets only, never durations.
+Idx(ev, e) == {i \in 1..Len(ev) : ev[i].e = e}
+\* calls into the underlying writer never overlap: ds-enter and ds-exit alternate
 Serialized(ev) ==
-  \A i \in 1..Len(ev) : ev[i] = "ds-enter" =>
-     \A k \in (i + 1)..Len(ev) : ev[k] = "ds-enter" => \E m \in (i + 1)..(k - 1) : ev[m] = "ds-exit"
-\* once Shut has returned the downstream writer is neither being written nor written again
+  \A i \in Idx(ev, "ds-enter") : \A k \in Idx(ev, "ds-enter") : k > i => \E m \in Idx(ev, "ds-exit") : i < m /\ m < k
+\* once Shut has returned the underlying writer is not in the middle of a call ...
 ShutIsFinal(ev) ==
-  \A i \in 1..Len(ev) : ev[i] = "shut-ret" =>
-     /\ \A k \in (i + 1)..Len(ev) : ev[k] \notin {"ds-enter", "ds-exit"}
-C47_Schedule(kind, ev) == Serialized(ev) /\ (kind = "valve-shut" => ShutIsFinal(ev))
+  \A i \in Idx(ev, "shut-ret") : \A k \in Idx(ev, "ds-exit") : k > i => \E m \in Idx(ev, "ds-enter") : i < m /\ m < k
+\* ... and "a shut valve discards": no call into the underlying writer begins after Shut has returned
+C47_ShutDiscards(ev) ==
+  \A i \in Idx(ev, "shut-ret") : \A k \in Idx(ev, "ds-enter") : k < i
+\* a Write call reaches the underlying writer at most once
+OncePerCall(ev) == \A i, k \in Idx(ev, "ds-enter") : i # k => ev[i].who # ev[k].who
+\* a Write that returned before any Shut / Cancel was even called was forwarded
+ForwardedIfUndisturbed(ev) ==
+  \A i \in Idx(ev, "w-ret") :
+     (\A k \in Idx(ev, "shut-call") \cup Idx(ev, "cancel-call") : k > i) => \E m \in Idx(ev, "ds-enter") : m < i /\ ev[m].who = ev[i].who
+\* preemptable writer (one writing goroutine, one cancelling goroutine): of the Write calls that START after
+\* Cancel has returned at most `interval` reach the underlying writer; a write is refused only after Cancel
+\* was called; a refused write does not reach the underlying writer; after a refusal every later write is refused
+PreemptWithinInterval(interval, ev) ==
+  \A c \in Idx(ev, "cancel-ret") :
+     LET late == {ev[i].who : i \in {x \in Idx(ev, "w-call") : x > c}}
+     IN  Cardinality({k \in Idx(ev, "ds-enter") : ev[k].who \in late}) <= interval
+PreemptRefusals(ev) ==
+  LET refused == {i \in Idx(ev, "w-ret") : ev[i].err = "preempted"} IN
+  /\ \A i \in refused : \E c \in Idx(ev, "cancel-call") : c < i
+  /\ \A i \in refused : \A k \in Idx(ev, "ds-enter") : ev[k].who # ev[i].who
+  /\ \A i \in refused : \A k \in Idx(ev, "w-ret") : k > i => k \in refused
+C47_Schedule(kind, interval, ev) ==
+  CASE kind = "valve"      -> Serialized(ev) /\ ShutIsFinal(ev) /\ OncePerCall(ev) /\ ForwardedIfUndisturbed(ev)
+    [] kind = "concurrent" -> Serialized(ev) /\ OncePerCall(ev) /\ ForwardedIfUndisturbed(ev)
+    [] kind = "preempt"    -> PreemptWithinInterval(interval, ev) /\ PreemptRefusals(ev) /\ OncePerCall(ev)
+                              /\ ForwardedIfUndisturbed(ev)
+\* recorded orders only: the bytes the underlying writer saw for a call are the bytes that call was given,
+\* every Write reported what its fate implies (all bytes written, or refused with nothing written)
+IntactBytes(ev) ==
+  /\ \A k \in Idx(ev, "ds-enter") : \E i \in Idx(ev, "w-call") : i < k /\ ev[i].who = ev[k].who /\ ev[i].d = ev[k].d
+  /\ \A r \in Idx(ev, "w-ret") : \E i \in Idx(ev, "w-call") : i < r /\ ev[i].who = ev[r].who /\
+        IF ev[r].err = "preempted" THEN ev[r].n = 0 ELSE ev[r].err = "" /\ ev[r].n = Len(ev[i].d)
 
 \* exact agreement of one observation with the machine's
 C47_Exact(want, got) == got.n = want.n /\ got.err = want.err /\ got.ds = want.ds /\ got.x = want.x
